@@ -37,6 +37,13 @@ func Now() time.Time {
 	return now
 }
 
+// NowTick is the clock as read by a library that looks at it AFTER the code that
+// stamped a value with Now(): real clocks have sub-second resolution, so such a
+// reader never sees exactly the stamped instant.  Used for the certificate
+// validity window test in github.com/cloudflare/cfssl/revoke (a certificate
+// minted "now" is valid when it is presented).
+func NowTick() time.Time { return Now().Add(time.Nanosecond) }
+
 func Since(t time.Time) time.Duration { return Now().Sub(t) }
 func Until(t time.Time) time.Duration { return t.Sub(Now()) }
 
